@@ -83,7 +83,7 @@ def h_step(x, bk, n):
         be.close()
 
 
-def h_stream(x, bk, k):
+def h_stream(x, bk, k, recreated=False):
     p = x.zint("p", 0, P_MAX_US)
     hbs = ST.sym_rows(x, "h", k, ids=False)
     for i in range(k - 1):
@@ -93,6 +93,12 @@ def h_stream(x, bk, k):
     be = ST.backend(bk)
     ds = be.make(x, {"A": [], "B": B})
     try:
+        if recreated:
+            # the bucket id is reused: populate, delete the bucket, create it again on the same store object
+            old = ST.sym_rows(x, "o", 1, ids=False)[0]
+            ds["A"].insert(ST.event_of_row(x, old))
+            ds.delete_bucket("A")
+            ds.create_bucket("A", "type-A", "client", "host-A", created=ST.T0, name="name-A", data={"d": "A"})
         pulse = x.seconds_us(p)
         trace = [ingest(ds["A"], ST.event_of_row(x, h), pulse) for h in hbs]
         want = HB.heartbeat_reduce([ST.event_of_row(x, h) for h in hbs], pulse)
@@ -116,6 +122,7 @@ def harnesses(tier):
     for bk in ["memory", "sqlite", "peewee"]:
         for n in ([0, 1, 2] if tier == "quick" else [0, 1, 2, 3]):
             hs.append((Harness(PROP, "%s-step-r%d" % (bk, n), h_step, dict(bk=bk, n=n), "%s: one heartbeat into a bucket holding a reduced stream of %d events (+2 events in another bucket)" % (bk, n), split_depth=6), 1800))
+        hs.append((Harness(PROP, "%s-stream-k2-recreated-bucket" % bk, h_stream, dict(bk=bk, k=2, recreated=True), "%s: 2 heartbeats into a bucket whose id was deleted and re-created on the same store object" % bk, split_depth=7), 1800))
         for k in ([2, 3] if tier == "quick" else [2, 3, 4]):
             hs.append((Harness(PROP, "%s-stream-k%d" % (bk, k), h_stream, dict(bk=bk, k=k), "%s: stream of %d heartbeats from the empty bucket" % (bk, k), split_depth=7), 3600))
     return hs
